@@ -524,7 +524,7 @@ class CT:
             if isinstance(k, CT):
                 if k.dtype == "bool":
                     if not all(isinstance(v, (bool, np.bool_)) for v in k.a.reshape(-1)):
-                        raise Unsupported("boolean-mask indexing with a symbolic mask (data-dependent shape)")
+                        raise SymbolicMask(k)
                     out.append(k.a.astype(bool))
                 else:
                     vals = []
@@ -557,7 +557,13 @@ class CT:
 
     def __vc_getitem__(self, I, idx):
         try:
-            r = self.a[self.conv_index(I, idx)]
+            cidx = self.conv_index(I, idx)
+        except SymbolicMask as sm:
+            if isinstance(idx, CT) and idx.shape == self.shape:
+                return m_masked_select(I, self, idx)
+            raise Unsupported("boolean-mask indexing with a symbolic mask of a different shape (data-dependent shape)")
+        try:
+            r = self.a[cidx]
         except IndexError as e:
             raise PyRaise("IndexError", str(e))
         if not isinstance(r, np.ndarray):
@@ -603,6 +609,37 @@ class CT:
         if name in METHODS:
             return Method(self, name)
         raise Unsupported("tensor attribute/method .%s is not modelled" % name)
+
+
+class SymbolicMask(Exception):
+    def __init__(self, mask):
+        self.mask = mask
+
+
+class MaskedSel:
+    """result of x[mask] / masked_select with a symbolic mask: the row-major list of (selected?, value).
+    Its length is data-dependent, so it can only be consumed by masked_scatter (stable compaction)."""
+
+    def __init__(self, conds, vals, dtype):
+        self.conds, self.vals, self.dtype = conds, vals, dtype
+        self.before = []  # number of selected elements strictly before position p
+        acc = 0
+        for c in conds:
+            self.before.append(acc)
+            acc = sc_add(acc, sc_where(c, 1, 0) if not isinstance(c, bool) else int(c))
+        self.total = acc
+
+    def pick(self, r):
+        """the r-th selected value (r an SMT/py integer); arbitrary if there is none"""
+        acc = self.vals[-1] if self.vals else 0
+        for c, v, b in reversed(list(zip(self.conds, self.vals, self.before))):
+            acc = sc_where(sc_and(c, sc_cmp("eq", b, r)), v, acc)
+        return acc
+
+    def __vc_getattr__(self, I, name):
+        if name in ("new_empty", "new_zeros", "new_ones", "new_full"):  # only the dtype of the selection is used
+            return Method(CT(np.empty((0,), dtype=object), self.dtype), name)
+        raise Unsupported("masked selection with a symbolic mask can only feed masked_scatter (.%s used)" % name)
 
 
 class Method:
@@ -872,6 +909,54 @@ def m_masked_fill_(I, t, mask, value):
         raise PyRaise("RuntimeError", "masked_fill_: mask does not broadcast to self")
     t.store(Ellipsis, r)
     return t
+
+
+@method("masked_select")
+def m_masked_select(I, t, mask):
+    a, m = np.broadcast_arrays(t.a, CT.wrap(mask).a)
+    return MaskedSel(list(m.reshape(-1)), list(a.reshape(-1)), t.dtype)
+
+
+def _masked_scatter(I, t, mask, source, inplace):
+    m = np.broadcast_to(CT.wrap(mask).a, t.shape)
+    if isinstance(source, CT):
+        source = MaskedSel([True] * source.a.size, list(source.a.reshape(-1)), source.dtype)
+    if not isinstance(source, MaskedSel):
+        raise Unsupported("masked_scatter source")
+    conds = list(m.reshape(-1))
+    need = 0
+    out = np.empty(t.a.size, dtype=object)
+    flat = t.a.reshape(-1)
+    for q, c in enumerate(conds):
+        out[q] = sc_where(c, source.pick(need), flat[q])
+        need = sc_add(need, sc_where(c, 1, 0) if not isinstance(c, bool) else int(c))
+    # torch requires the source to hold at least as many elements as the mask selects
+    g = sc_cmp("le", need, source.total)
+    I.ex.oblige("masked_scatter.source_has_enough_elements", g if not isinstance(g, bool) else z3.BoolVal(g))
+    r = CT(out.reshape(t.shape), t.dtype)
+    if inplace:
+        t.store(Ellipsis, r)
+        return t
+    return r
+
+
+METHODS["masked_scatter"] = FUNCS["torch.masked_scatter"] = lambda I, t, mask, source: _masked_scatter(I, t, mask, source, False)
+METHODS["masked_scatter_"] = lambda I, t, mask, source: _masked_scatter(I, t, mask, source, True)
+_c("masked_select / masked_scatter: row-major order preserved (stable compaction)")
+
+
+def _new_like(kind):
+    def f(I, t, *size, dtype=None, device=None, **k):
+        dt = dtype_tag(dtype, t.dtype)
+        if kind == "full":
+            return f_full(I, size[0], size[1], dtype=dt)
+        return {"empty": f_empty, "zeros": f_zeros, "ones": f_ones}[kind](I, *size, dtype=dt)
+
+    return f
+
+
+for _k in ("empty", "zeros", "ones", "full"):
+    METHODS["new_" + _k] = _new_like(_k)
 
 
 @method("fill_", func=False)
